@@ -12,6 +12,7 @@ import (
 	"strconv"
 	"strings"
 	"sync"
+	"sync/atomic"
 	"time"
 )
 
@@ -87,6 +88,9 @@ type CheckCtx struct {
 	known      []*KnownFinding
 	inconcl    []string
 	few        map[string]int
+
+	bbEvery     int          // every n-th relational case is judged black-box directly (0 = default)
+	caseCounter atomic.Int64
 }
 
 func (c *CheckCtx) Quick() bool { return c.Tier == "quick" }
